@@ -1,7 +1,7 @@
 SPECIFICATION Spec
 CONSTANTS
-  MaxLeaves = 1
-  MaxLeaves2 = 1
+  MaxLeaves = 3
+  MaxLeaves2 = 3
   Mod = 1
   Rem = 0
   Typings = {"O"}
